@@ -95,22 +95,32 @@ class MiniWorld:
         self.findings.append({"sig": s, "msg": msg})
 
 
-class Scripted:
-    """entropy seam answering a prescribed prefix, then a uniform stream"""
+class SweepStop(Exception):
+    """raised by the seam when the sampler asks for more than the prescribed answers:
+    the prescribed prefix was rejected (no need to let the sampler run on)"""
 
-    def __init__(self, prefix, seed):
+
+class Scripted:
+    """entropy seam answering a prescribed prefix; afterwards either stops the call
+    (stop=True) or continues with a uniform stream"""
+
+    def __init__(self, prefix, seed, stop=False):
         self.prefix = prefix
         self.i = 0
         self.seed = seed
         self.ctr = 0
         self.sizes = []
+        self.stop = stop
 
     def __call__(self, n):
-        self.sizes.append(n)
         if self.i < len(self.prefix):
+            self.sizes.append(n)
             v = self.prefix[self.i]
             self.i += 1
             return v.to_bytes(n, "big") if n else b""
+        if self.stop:
+            raise SweepStop()
+        self.sizes.append(n)
         self.i += 1
         out = b""
         while len(out) < n:
@@ -193,16 +203,17 @@ def execute(scn):
     rejected = []
     t0 = lib.trip.calls
     for s in range(space):
-        e = Scripted([s], s)
-        v = f(e)
+        e = Scripted([s], s, stop=True)
+        try:
+            v = f(e)
+        except SweepStop:
+            rejected.append(s)
+            continue
         if not (lo <= v < hi):
             w.flag("out-of-range", "%s returned %d outside [%d,%d) for first answer %0*x" % (name, v, lo, hi, 2 * n, s), fn=name)
             w.log("sweep", "bad")
             return w
-        if len(e.sizes) == 1:
-            tally[v] = tally.get(v, 0) + 1
-        else:
-            rejected.append(s)
+        tally[v] = tally.get(v, 0) + 1
     w.tick += space
     if lib.trip.calls != t0:
         w.flag("bypassed-seam", "%s used os.urandom" % name, fn=name)
@@ -229,8 +240,11 @@ def execute(scn):
             t2 = {}
             acc2 = 0
             for s2 in range(space):
-                e = Scripted([s, s2], s2)
-                v = f(e)
+                e = Scripted([s, s2], s2, stop=True)
+                try:
+                    v = f(e)
+                except SweepStop:
+                    continue
                 if not (lo <= v < hi):
                     w.flag("out-of-range", "%s returned %d outside [%d,%d) in the second round" % (name, v, lo, hi), fn=name)
                     return w
